@@ -688,6 +688,105 @@ def add_generator_contracts(pack):
               "Python name that a function parameter in scope is bound to", var_sym_post)
     c.replay(lambda m, ctx, ob: GEN_REPLAY)
     c.replay_without_model = True
+    add_def_target(pack, gsetup, dict(fld=fld, lst=lst, exact=exact, NEWSYM=NEWSYM))
+
+
+def add_def_target(pack, gsetup, helpers):
+    """``_def_to_py_ast``: the generated code interns the Var in the namespace the ``def`` was *compiled* in - the namespace of
+    the Var the analyzer created (``node.var``) - so that evaluating the ``def`` gives the value to the Var every reference
+    compiled against that name denotes.  Verified on the declaration path ``(def v)``; the namespace argument is computed
+    once, before the paths split, so the same expression is used on the paths with an init value (stated, not re-proved)."""
+    import ast as _ast
+
+    from basilisp.lang import runtime as rt, symbol as sym
+    from basilisp.lang.compiler import generator as gen, nodes
+    from basilisp.lang.map import PersistentMap
+
+    fld, lst, exact, NEWSYM = helpers["fld"], helpers["lst"], helpers["exact"], helpers["NEWSYM"]
+    GPA = gen.GeneratedPyAST
+
+    def dsetup(eng, st):
+        gsetup(eng, st)
+        for c_ in (nodes.Def, nodes.NodeEnv, _ast.Global, nodes.Const):
+            eng.class_id(c_)
+        eng.field_types[("Def", "var")] = lambda v: (z3.And(V.is_ref(v), V.cls_of(V.Val.a(v)) == eng.class_id(rt.Var)), rt.Var)
+        eng.field_types[("Def", "name")] = lambda v: (z3.And(V.is_ref(v), V.cls_of(V.Val.a(v)) == eng.class_id(sym.Symbol)), sym.Symbol)
+        eng.field_types[("Def", "env")] = lambda v: (z3.And(V.is_ref(v), V.cls_of(V.Val.a(v)) == eng.class_id(nodes.NodeEnv)), nodes.NodeEnv)
+        eng.field_types[("Def", "meta")] = lambda v: (z3.And(V.is_ref(v), V.cls_of(V.Val.a(v)) == eng.class_id(nodes.Const)), nodes.Const)
+        eng.field_types[("Const", "form")] = lambda v: (z3.And(V.is_ref(v), V.cls_of(V.Val.a(v)) == eng.class_id(PersistentMap)), PersistentMap)
+        from basilisp.lang import util as lutil
+
+        eng.models[id(gen.munge)] = Model("munge (a function of the name)", lambda e, s, a, k: iter([(s, SV(V.mk_str(z3.String(V.fresh_name("munged")))))]))
+        eng.method_models[(PersistentMap, "val_at")] = Model("meta.val_at(:dynamic, False) (either)", lambda e, s, a, k: iter([(s, SV(V.mk_bool(z3.Const(V.fresh_name("is_dynamic"), z3.BoolSort()))))]))
+
+        def gen_py_ast(e, s, a, k):
+            r = e.alloc(s, GPA)
+            n = V.fresh_val("meta_ast_node")
+            s.assume(e.external_ref_fact(s, n))
+            e.store_field(s, r.t, "node", n, None)
+            deps = e.new_list(s, [])
+            e.store_field(s, r.t, "dependencies", e.lift(deps, s), None)
+            yield s, r
+
+        eng.models[id(gen.gen_py_ast)] = Model("gen_py_ast (some generated node; here only for the metadata map)", gen_py_ast)
+
+    c = pack.contract("basilisp.lang.compiler.generator:_def_to_py_ast")
+    c.label = "a declaration (def v)"
+    c.param("ctx", OBJ(gen.GeneratorContext)).param("node", OBJ(nodes.Def))
+    c.setup(dsetup)
+    from pyvc import ops as _ops
+
+    c.requires("the node is a def without an init value (node.op == NodeOp.DEF, node.init is None)",
+               lambda a: z3.And(_ops.eq_term(None, fld(a.pre.st, a.node, "op"), a.eng.lift(nodes.NodeOp.DEF, a.pre.st)), V.is_none(fld(a.pre.st, a.node, "init"))))
+    c.raises()
+
+    def def_post(a):
+        post, pre = a.post.st, a.pre.st
+        n = fld(post, a.result, "node")
+        args = lst(post, fld(post, n, "args"))
+        ns_arg = args[0]
+        var = fld(pre, a.node, "var")
+        ns_name = fld(pre, fld(pre, fld(pre, var, "_ns"), "_name"), "_name")
+        iargs = lst(post, fld(post, ns_arg, "args"))
+        return z3.And(exact(a.eng, a.result, GPA), exact(a.eng, n, _ast.Call), z3.Length(args) >= 2,
+                      exact(a.eng, ns_arg, _ast.Call), fld(post, ns_arg, "func") == a.eng.lift(NEWSYM, post), z3.Length(iargs) == 1,
+                      exact(a.eng, iargs[0], _ast.Constant), fld(post, iargs[0], "value") == ns_name)
+
+    c.ensures("the Var is interned in the namespace the def was compiled in - sym.symbol(<name of node.var's namespace>), a constant of the generated code - "
+              "not in whatever *ns* is bound to when the code runs", def_post)
+    c.replay(lambda m, ctx, ob: DEF_REPLAY)
+    c.replay_without_model = True
+
+
+DEF_REPLAY = r'''
+import subprocess, sys, tempfile, os
+d = tempfile.mkdtemp()
+os.makedirs(os.path.join(d, "c10s"))
+open(os.path.join(d, "c10s", "__init__.py"), "w").close()
+open(os.path.join(d, "c10s", "a.lpy"), "w").write("(ns c10s.a)\n(def y 0)\n(defn set-y [] (def y 1))\n(defn declare-z [] (def z))\n(defn get-y [] y)\n")
+src = """(ns c10s.b (:require c10s.a))
+(c10s.a/set-y)
+(c10s.a/declare-z)
+(println "RESULT" c10s.a/y (c10s.a/get-y) @(var c10s.a/y) (resolve 'c10s.b/y) (resolve 'c10s.b/z) (some? (resolve 'c10s.a/z)))
+"""
+with tempfile.NamedTemporaryFile("w", suffix=".lpy", delete=False) as fh:
+    fh.write(src)
+outs = []
+try:
+    for extra in ([], ["--use-var-indirection", "true"]):
+        env = dict(os.environ, PYTHONPATH=d + os.pathsep + os.environ.get("PYTHONPATH", ""))
+        out = subprocess.run([sys.executable, "-m", "basilisp.cli", "run"] + extra + [fh.name], capture_output=True, text=True, timeout=300, env=env)
+        line = [l for l in out.stdout.splitlines() if l.startswith("RESULT")]
+        outs.append(line[0] if line else "no output: " + out.stderr[-300:])
+finally:
+    os.unlink(fh.name)
+want = "RESULT 1 1 1 nil nil true"
+print("a def inside a function of namespace a, run while b is current (direct linking, var indirection):")
+for o in outs:
+    print("  got     ", o)
+print("  expected", want)
+print("REPRODUCED" if any(o != want for o in outs) else "not reproduced")
+'''
 
 
 # ----------------------------------------------------------------------------- is spec_munge injective?
